@@ -9,6 +9,7 @@ import SLE.Driver.PipelineD
 import SLE.Driver.TruthD
 import SLE.Driver.WatchdogD
 import SLE.Driver.LiftD
+import SLE.Driver.TCD
 /-! `sle_driver`: reads `family\tpayload\timpl_answer`, prints `model_answer\toracle_verdict`. -/
 open SLE.Driver
 
@@ -31,6 +32,7 @@ def handleLine (tbl : Array (Nat × Nat)) (line : String) : String :=
       | "watchdog" => WatchdogD.handle payload impl
       | "hash" => LiftD.handleHash payload impl
       | "lift" => LiftD.handleLift tbl payload impl
+      | "tc" => TCD.handle tbl payload impl
       | "pipeline" => PipelineD.handle payload impl
       | "orders" => PipelineD.handleOrders payload impl
       | _ => ("unknown-family", "ok")
@@ -42,7 +44,7 @@ partial def loop (tbl : Array (Nat × Nat)) (h : IO.FS.Stream) (out : IO.FS.Stre
   if line.isEmpty then return ()
   let line := (line.dropEndWhile (fun c => c == '\n' || c == '\r')).toString
   -- the 10,000-entry hash table is only built when a request needs it
-  let tbl := if tbl.isEmpty && (line.startsWith "lift\t" || line.startsWith "lifttc\t") then LiftD.slotTable else tbl
+  let tbl := if tbl.isEmpty && (line.startsWith "lift\t" || line.startsWith "tc\t") then LiftD.slotTable else tbl
   if !line.isEmpty then out.putStrLn (handleLine tbl line)
   loop tbl h out
 
